@@ -1,6 +1,7 @@
 import XlModel.Calc
 import XlModel.CalcFloat
 import XlModel.CalcCheck
+import XlModel.CalcRef
 import XlModel.Drv.Util
 /-!
 C08 line protocol (stateful: a workbook is built by `cell` lines).
@@ -113,7 +114,12 @@ def parseTree : Nat → List String → Option (Expr × List String)
           if t = "N" then some (.num b, rest) else if t = "X" then some (.text b, rest)
           else if t = "L" then some (.logical b, rest) else if t = "R" then some (.ref b, rest) else none
 
+/-- the sheets every harness workbook has (c08NewState), in creation order -/
+def defaultSheets : List Str :=
+  ["Sheet1", "Sheet2", "Sheet3", "My Data"].map fun s => s.toUTF8.toList.map (·.toNat)
+
 structure St where
+  sheets : List Str := defaultSheets
   defs : List DefName := []
   envI : List (Str × Impl.CellArg Float) := []
   envS : List (Str × Spec.Val Float) := []
@@ -172,7 +178,24 @@ shadowing rule; an invisible name keeps its text (unknown key → #NAME?). -/
 def resolveWord (st : St) (w : String) : String :=
   match w.splitOn ":" with
   | [t, n, c] =>
-    if t = "dg" then
+    if t = "rr" then
+      -- a cell reference as efp spells it, used on sheet c: the model resolves it (parseReference)
+      match hexBytes n, hexBytes c with
+      | some spell, some cur =>
+        (match Impl.resolveRef st.sheets cur spell with
+         | .ok (false, [k]) => "r:" ++ hexOut k
+         | _ => "r:" ++ hexOut (63 :: spell))
+      | _, _ => w
+    else if t = "gr" then
+      -- a range reference as a call argument
+      match hexBytes n, hexBytes c with
+      | some spell, some cur =>
+        (match Impl.resolveRef st.sheets cur spell with
+         | .ok (true, ks) => "g:" ++ hexOut (ks.foldl (fun acc k => if acc = [] then k else acc ++ [44] ++ k) [])
+         | .ok (false, [k]) => "r:" ++ hexOut k
+         | _ => "g:-")
+      | _, _ => w
+    else if t = "dg" then
       -- a defined range name as a call argument: the model resolves it (Impl scan)
       match hexBytes n, hexBytes c with
       | some name, some cur => "g:" ++ hexOut (Impl.definedNameRefTo st.defs name cur)
@@ -291,6 +314,13 @@ def step (st : St) (w : List String) : St × String :=
       -- an item is a cell key or `d:<name>:<sheet>` (a defined range name used on that sheet)
       let item (impl : Bool) (w : String) : Option (List Str) :=
         match w.splitOn ":" with
+        | ["gr", n, c] =>
+          (match hexBytes n, hexBytes c with
+           | some spell, some cur =>
+             (match Impl.resolveRef st.sheets cur spell with
+              | .ok (_, ks) => some ks
+              | .error _ => some [])
+           | _, _ => none)
         | ["d", n, c] =>
           (match hexBytes n, hexBytes c with
            | some name, some cur =>
@@ -306,6 +336,9 @@ def step (st : St) (w : List String) : St × String :=
        | _, _ => (st, "bad-op"))
     | _, _ => (st, "bad-op")
   | ["main", _] => (st, "ok")
+  | ["sheet", n] => (match hexBytes n with
+    | some name => ({ st with sheets := st.sheets ++ [name] }, "ok")
+    | none => (st, "bad-op"))
   | ["defname", n, sc, ref] =>
     (match hexBytes n, hexBytes sc, hexBytes ref with
      | some name, some scope, some r =>
